@@ -100,6 +100,8 @@ Apply(e) ==
          [s EXCEPT !.inrun = @ \ {e.t}]
     [] k = "sample" ->
          [s EXCEPT !.atrest = TRUE]
+    [] k = "rest" ->        \* the coordinator blocks on the empty result queue with a positive timeout
+         [s EXCEPT !.atrest = TRUE]
     [] k = "consume" ->
          [s EXCEPT !.slot = @ \ {e.t},
                    !.fin = [@ EXCEPT ![e.t] = IF @ = "none" THEN (IF e.ok = 1 THEN "ok" ELSE "fail") ELSE @]]
@@ -135,8 +137,8 @@ Apply(e) ==
                                     IF \E i \in DOMAIN e.vals : e.vals[i][1] = t /\ e.vals[i][2] = 1
                                     THEN (CHOOSE x \in SetOf(e.vals) : x[1] = t)[3] ELSE <<>>]]
     [] k = "obs_marks" ->
-         [s EXCEPT !.marks = {[t |-> e.insts[i][1], marked |-> (e.insts[i][2] = 1), anc |-> e.insts[i][3]] :
-                                i \in DOMAIN e.insts}]
+         [s EXCEPT !.marks = {[t |-> e.insts[i][1], marked |-> (e.insts[i][2] = 1), anc |-> e.insts[i][3],
+                                tok |-> IF Len(e.insts[i]) >= 4 THEN e.insts[i][4] ELSE ""] : i \in DOMAIN e.insts}]
     [] k = "obs_ctxstore" ->   \* keys + stored metadata of the same request run under two different contexts
          [s EXCEPT !.envok = @ \cup (IF e.a # e.b THEN {<<0, "context-influenced-cache-keys-or-stored-entries">>} ELSE {})
                                   \cup (IF "leak" \in DOMAIN e /\ e.leak = 1 THEN {<<0, "context-content-found-in-a-stored-entry">>} ELSE {})]
@@ -169,7 +171,7 @@ Spec == Init /\ [][Next]_tvars
 Wanted(c) == IOEnv.LV_PROPS = "ALL" \/ \E i \in 1..(Len(IOEnv.LV_PROPS) - 2) : SubSeq(IOEnv.LV_PROPS, i, i + 2) = SubSeq(c, 1, 3)
 
 StateNames == {"C01_Returns", "C01_Keys", "C01_Values", "C01_Digest", "C02_RealResult", "C03_OnlyNeeded", "C03_AtMostOnce",
-               "C03_LoadIffCached", "C03_Marked", "C04_Workers", "C04_Type", "C05_AtRest", "C10_OnlyOwnFailures",
+               "C03_LoadIffCached", "C03_Marked", "C03_MarkedOwn", "C04_Workers", "C04_Type", "C05_AtRest", "C10_OnlyOwnFailures",
                "C10_Continue", "C10_NoValueForFailed", "C10_CachedOk", "C10_FailFast", "C10_NoStartAfterExit",
                "C11_NoIdleWait", "C11_NoSpin", "C14_ExitClass", "C14_RunningFinish", "C14_RunningCached",
                "C14_CacheConsistent", "C16_Env", "C17_Retained", "C17_Prompt", "C17_Captured",
@@ -178,7 +180,7 @@ StateHolds(c) ==
   CASE c = "C01_Returns" -> Abs!C01_Returns [] c = "C01_Keys" -> Abs!C01_Keys [] c = "C01_Values" -> Abs!C01_Values [] c = "C01_Digest" -> Abs!C01_Digest
     [] c = "C02_RealResult" -> Abs!C02_RealResult
     [] c = "C03_OnlyNeeded" -> Abs!C03_OnlyNeeded [] c = "C03_AtMostOnce" -> Abs!C03_AtMostOnce
-    [] c = "C03_LoadIffCached" -> Abs!C03_LoadIffCached [] c = "C03_Marked" -> Abs!C03_Marked
+    [] c = "C03_LoadIffCached" -> Abs!C03_LoadIffCached [] c = "C03_Marked" -> Abs!C03_Marked [] c = "C03_MarkedOwn" -> Abs!C03_MarkedOwn
     [] c = "C04_Workers" -> Abs!C04_Workers [] c = "C04_Type" -> Abs!C04_Type
     [] c = "C05_AtRest" -> Abs!C05_AtRest
     [] c = "C10_OnlyOwnFailures" -> Abs!C10_OnlyOwnFailures [] c = "C10_Continue" -> Abs!C10_Continue
